@@ -156,7 +156,7 @@ class IndxIO(object):
             + index.nbytes  # index
             + 1  # rowid word size
             + len(lengths) * dtype.itemsize  # rowid lengths
-            + sum(lengths) * dtype.itemsize  # rowids
+            + sum(lengths.tolist()) * dtype.itemsize  # rowids
         )
 
         f.write(IndxIO.INDEXED_MAGIC)
